@@ -1,7 +1,9 @@
 (* The gate (Model/Gate.v, C10) composed with the section model (Model/Section.v, C15): section operations that carry
    what the real calls carry - write(text, flags), write_line(text, flags), overwrite(text), clear(n) - on sections
-   that each have their OWN quiet / verbosity settings (Output.section() builds a SectionOutput with _quiet False and
-   _verbosity NORMAL whatever its parent has; set_quiet / set_verbosity are per object).
+   that each have their OWN quiet / verbosity settings: Output.section() hands the new SectionOutput the quiet flag, the
+   verbosity and the indentation the output has AT THAT MOMENT (/repo e696a15, proposed-fixes/section-inherits-gate.patch: before it, a
+   section of a quiet output was not quiet - `io.set_quiet(True); io.section().write_line(x)` printed x); afterwards
+   set_quiet / set_verbosity / indent are per object.
    Where the real calls consult Output._may_write (api/io/section_output.py, api/io/output.py):
      write / write_line   decorated: `if not self._may_write(flags): return` BEFORE anything is popped, recorded or
                           written; the writes that follow ask the gate with flags None, which a call allowed with any
@@ -12,6 +14,9 @@
                           the record while the screen kept the rows - finding, repaired); the control codes and the
                           re-printed newer sections then go through Output.write (flags None), which passes.
                           Undecorated: returns at once.
+     add_content(text)    (public) `if not self._may_write(None): return` before anything is recorded
+                          (/repo 3538831, proposed-fixes/add-content-gated.patch: before it, what a quiet section was handed this way was
+                          printed with the next write into an older section); nothing is written by the call itself.
    So EVERY call either is refused and does nothing, or performs its Section.v operation.
    Definitions only; Section.v and Gate.v are used as they are. *)
 From Clikit Require Import Base.Prelude Base.Res Base.Term Model.Conv Model.Markup Model.Gate Model.Section.
@@ -20,7 +25,11 @@ From Clikit Require Model.OutputM.
 (* Output._quiet, Output._verbosity of one section *)
 Record gate := { g_quiet : bool; g_verb : Z }.
 Definition new_gate : gate := {| g_quiet := false; g_verb := NORMAL |}.
-Definition gates := list gate.                                  (* parallel to Section.secs: creation order *)
+(* the settings of the output the sections belong to (quiet / verbosity, indentation) and of every section (parallel to
+   Section.secs: creation order) *)
+Record gates := { g_parent : gate; g_pindent : nat; g_secs : list gate }.
+Definition gates0 : gates := {| g_parent := new_gate; g_pindent := 0; g_secs := [] |}.
+Definition with_secs (gs : gates) (l : list gate) : gates := {| g_parent := g_parent gs; g_pindent := g_pindent gs; g_secs := l |}.
 
 (* set_verbosity accepts exactly these (anything else raises ValueError before it changes anything) *)
 Inductive level := LNormal | LVerbose | LVeryVerbose | LDebug.
@@ -34,20 +43,25 @@ Inductive gop :=
 | GClear (i : nat) (n : option nat)
 | GIndent (i : nat) (n : nat)
 | GSetQuiet (i : nat) (q : bool)
-| GSetVerbosity (i : nat) (v : level).
+| GSetVerbosity (i : nat) (v : level)
+| GAddContent (i : nat) (text : str)                            (* the public SectionOutput.add_content *)
+| GParentQuiet (q : bool)                                       (* output.set_quiet / set_verbosity / indent on the PARENT *)
+| GParentVerbosity (v : level)
+| GParentIndent (n : nat).
 
 (* the Section.v operation a call performs when nothing holds it back *)
-Definition sop_of (o : gop) : option sop :=
+Definition sop_of (gs : gates) (o : gop) : option sop :=
   match o with
-  | GCreate => Some SCreate
+  | GCreate => Some (SCreate (g_pindent gs))
+  | GAddContent i text => Some (SAddContent i text)
   | GWrite i text _ nl => Some (SWrite i text nl)
   | GOverwrite i text => Some (SOverwrite i text)
   | GClear i n => Some (SClear i n)
   | GIndent i n => Some (SIndent i n)
-  | GSetQuiet _ _ | GSetVerbosity _ _ => None
+  | GSetQuiet _ _ | GSetVerbosity _ _ | GParentQuiet _ | GParentVerbosity _ | GParentIndent _ => None
   end.
 
-Definition gate_of (gs : gates) (i : nat) : gate := nth i gs new_gate.
+Definition gate_of (gs : gates) (i : nat) : gate := nth i (g_secs gs) new_gate.
 Definition asks (gs : gates) (i : nat) (flags : option Z) : bool :=
   may_write (g_quiet (gate_of gs i)) (g_verb (gate_of gs i)) flags.
 
@@ -56,31 +70,38 @@ Definition asks (gs : gates) (i : nat) (flags : option Z) : bool :=
 Definition allowed (gs : gates) (o : gop) : bool :=
   match o with
   | GWrite i _ f _ => asks gs i f
-  | GOverwrite i _ | GClear i _ => asks gs i None
+  | GOverwrite i _ | GClear i _ | GAddContent i _ => asks gs i None
   | _ => true
   end.
 
-Definition set_gate (gs : gates) (i : nat) (g : gate) : gates := firstn i gs ++ g :: skipn (S i) gs.
-(* the settings after a call: only section(), set_quiet, set_verbosity touch them *)
+Definition set_gate (l : list gate) (i : nat) (g : gate) : list gate := firstn i l ++ g :: skipn (S i) l.
+(* the settings after a call: only section() - the new section starts with the parent's settings -, set_quiet,
+   set_verbosity and the calls on the parent touch them *)
 Definition gates_step (gs : gates) (o : gop) : gates :=
   match o with
-  | GCreate => gs ++ [new_gate]
+  | GCreate => with_secs gs (g_secs gs ++ [g_parent gs])
   | GSetQuiet i q =>
-    match nth_error gs i with Some g => set_gate gs i {| g_quiet := q; g_verb := g_verb g |} | None => gs end
+    match nth_error (g_secs gs) i with
+    | Some g => with_secs gs (set_gate (g_secs gs) i {| g_quiet := q; g_verb := g_verb g |}) | None => gs end
   | GSetVerbosity i v =>
-    match nth_error gs i with Some g => set_gate gs i {| g_quiet := g_quiet g; g_verb := level_Z v |} | None => gs end
+    match nth_error (g_secs gs) i with
+    | Some g => with_secs gs (set_gate (g_secs gs) i {| g_quiet := g_quiet g; g_verb := level_Z v |}) | None => gs end
+  | GParentQuiet q => {| g_parent := {| g_quiet := q; g_verb := g_verb (g_parent gs) |}; g_pindent := g_pindent gs; g_secs := g_secs gs |}
+  | GParentVerbosity v =>
+    {| g_parent := {| g_quiet := g_quiet (g_parent gs); g_verb := level_Z v |}; g_pindent := g_pindent gs; g_secs := g_secs gs |}
+  | GParentIndent n => {| g_parent := g_parent gs; g_pindent := n; g_secs := g_secs gs |}
   | _ => gs
   end.
 
 Definition sec_step (ansi : bool) (w : nat) (st : secs) (f : formatter) (o : sop) : res (secs * formatter * list emit) :=
-  if ansi then sstep w st f o else sstep_plain st f o.
+  if ansi then sstep w st f o else sstep_plain w st f o.
 
 Definition gres : Type := secs * gates * formatter * list emit.
 
 (* the step of the code, which is what C10 asks for: the Section.v step iff the gate allows the call, the identity
    otherwise (no emit, no content change, no row-count change, the formatter not even consulted) *)
 Definition gstep (ansi : bool) (w : nat) (st : secs) (gs : gates) (f : formatter) (o : gop) : res gres :=
-  match sop_of o with
+  match sop_of gs o with
   | None => Ok (st, gates_step gs o, f, [])
   | Some so =>
     if allowed gs o
@@ -111,7 +132,7 @@ Fixpoint kept (gs : gates) (ops : list gop) : list gop :=
 Fixpoint erase (gs : gates) (ops : list gop) : list sop :=
   match ops with
   | [] => []
-  | o :: r => (match sop_of o with Some so => if allowed gs o then [so] else [] | None => [] end)
+  | o :: r => (match sop_of gs o with Some so => if allowed gs o then [so] else [] | None => [] end)
               ++ erase (gates_step gs o) r
   end.
 (* groups of calls, the bytes of each group apart (the harness observes the stream between the groups) *)
@@ -140,6 +161,10 @@ Definition dec_gop (s : sexp) : option gop :=
   | L [A 4%Z; i; n] => match dNat i, dNat n with Some i, Some n => Some (GIndent i n) | _, _ => None end
   | L [A 5%Z; i; q] => match dNat i, dB q with Some i, Some q => Some (GSetQuiet i q) | _, _ => None end
   | L [A 6%Z; i; A v] => match dNat i, dec_level v with Some i, Some v => Some (GSetVerbosity i v) | _, _ => None end
+  | L [A 7%Z; q] => option_map GParentQuiet (dB q)
+  | L [A 8%Z; A v] => option_map GParentVerbosity (dec_level v)
+  | L [A 9%Z; n] => option_map GParentIndent (dNat n)
+  | L [A 10%Z; i; t] => match dNat i, dStr t with Some i, Some t => Some (GAddContent i t) | _, _ => None end
   | _ => None
   end.
 
@@ -154,12 +179,12 @@ Definition run_C10S (s : sexp) : sexp :=
     | Some ansi, Some forced, Some w, Some set, Some groups =>
       match new_formatter (if ansi then FAnsi forced else FPlain) set with
       | Ok f =>
-        match grun_groups ansi (N.to_nat w) [] [] f groups with
+        match grun_groups ansi (N.to_nat w) [] gates0 f groups with
         | Ok (st, gs, _, ess) =>
           L [A 0%Z; sList (sList enc_emit) ess;
              sList (fun x : sec * gate =>
                       L [sList sStr (sc_content (fst x)); A (Z.of_nat (sc_lines (fst x))); A (Z.of_nat (sc_indent (fst x)));
-                         sB (g_quiet (snd x)); A (g_verb (snd x))]) (combine st gs);
+                         sB (g_quiet (snd x)); A (g_verb (snd x))]) (combine st (g_secs gs));
              enc_term (feed (N.to_nat w) term_init (concat ess))]
         | Err k => sErr k
         end
